@@ -63,6 +63,16 @@ pub struct EngineJob {
     /// record probe events (delta, bucket permutation, first KOS coefficient)
     #[serde(default)]
     pub probes: bool,
+    /// emit the decoded content of the messages of these phases
+    #[serde(default)]
+    pub content_phases: Vec<String>,
+    /// emit every decoded 128-bit field of the whole transcript and scan the raw
+    /// bytes for each party's delta (needs `probes`)
+    #[serde(default)]
+    pub fields: bool,
+    /// scan the raw bytes sent by party h for this bit pattern (C06 canary): (party, bits)
+    #[serde(default)]
+    pub canary: Option<(usize, Vec<bool>)>,
     /// free-form tag copied to the output (scenario description)
     #[serde(default)]
     pub tag: Value,
@@ -147,7 +157,7 @@ pub fn run_engine(job: &EngineJob, work: &std::path::Path) -> EngineRun {
     {
         let mut nb = net.borrow_mut();
         nb.record_events = job.events;
-        nb.record_content = job.content;
+        nb.record_content = job.content || !job.content_phases.is_empty() || job.fields || job.canary.is_some();
     }
     let applied = Rc::new(RefCell::new(vec![false; job.devs.len()]));
     if !job.devs.is_empty() {
@@ -341,14 +351,79 @@ pub fn to_ndjson(job: &EngineJob, r: &EngineRun, out: &mut Vec<String>) {
         }
         out.push(v.to_string());
     }
-    for pe in &r.probes {
-        out.push(json!({"ev": "probe", "name": pe.name, "p": pe.p, "vals": pe.vals, "seq": pe.seq}).to_string());
-    }
     for pr in &r.results {
         out.push(
             json!({"ev": "res", "p": pr.p, "kind": pr.kind, "out": pr.out, "err": pr.err, "detail": pr.detail})
                 .to_string(),
         );
+    }
+    for pe in &r.probes {
+        out.push(json!({"ev": "probe", "name": pe.name, "p": pe.p, "vals": pe.vals, "seq": pe.seq}).to_string());
+    }
+    for m in &net.msgs {
+        if job.content_phases.iter().any(|p| *p == m.phase) {
+            let decoded = crate::adv::schema(&m.phase)
+                .and_then(|s| crate::adv::decode_all(&s, &m.sent))
+                .map(|v| crate::adv::to_json(&v))
+                .unwrap_or(Value::Null);
+            if !decoded.is_null() {
+                out.push(json!({"ev": "msg", "from": m.from, "to": m.to, "ph": m.phase, "seq": m.seq, "v": decoded}).to_string());
+            }
+        }
+    }
+    if job.fields {
+        let mut vals: Vec<u128> = vec![];
+        let mut undecoded = 0;
+        for m in &net.msgs {
+            match crate::adv::schema(&m.phase).and_then(|s| crate::adv::decode_all(&s, &m.sent)) {
+                Some(v) => {
+                    crate::adv::collect_u128(&v, &mut vals);
+                    // the aShare decommitment is a byte string: bit, then one big-endian MAC per other party
+                    if m.phase == "fashare ver" {
+                        if let crate::adv::V::Seq(items) = &v {
+                            for it in items {
+                                if let crate::adv::V::Bytes(b) = it {
+                                    for ch in b.get(1..).unwrap_or(&[]).chunks_exact(16) {
+                                        vals.push(u128::from_be_bytes(ch.try_into().expect("16 bytes")));
+                                    }
+                                }
+                            }
+                        }
+                    }
+                }
+                None => undecoded += 1,
+            }
+        }
+        vals.sort();
+        vals.dedup();
+        // raw scan: each probed delta, both byte orders, every offset of every message
+        let mut raw = vec![];
+        for pe in r.probes.iter().filter(|p| p.name == "delta") {
+            let d = pe.vals[0].iter().enumerate().fold(0u128, |a, (i, x)| a | ((*x as u128) << (16 * i)));
+            let (le, be) = (d.to_le_bytes(), d.to_be_bytes());
+            let hits: usize = net.msgs.iter().map(|m| crate::adv::count_sub(&m.sent, &le) + crate::adv::count_sub(&m.sent, &be)).sum();
+            raw.push(json!({"p": pe.p, "hits": hits}));
+        }
+        out.push(json!({"ev": "fields", "vals": vals.iter().map(|v| crate::adv::limbs(*v)).collect::<Vec<_>>(),
+                        "undecoded": undecoded, "raw": raw, "messages": net.msgs.len()}).to_string());
+    }
+    if let Some((h, bits)) = &job.canary {
+        // the party's plain input bits packed LSB-first and MSB-first into bytes
+        let pack = |msb: bool| -> Vec<u8> {
+            bits.chunks(8)
+                .map(|c| c.iter().enumerate().fold(0u8, |a, (i, b)| a | ((*b as u8) << if msb { 7 - i } else { i })))
+                .collect()
+        };
+        let (p1, p2) = (pack(false), pack(true));
+        // one byte per bit, as bincode encodes Vec<bool>
+        let p3: Vec<u8> = bits.iter().map(|b| *b as u8).collect();
+        let hits: usize = net
+            .msgs
+            .iter()
+            .filter(|m| m.from == *h)
+            .map(|m| crate::adv::count_sub(&m.sent, &p1) + crate::adv::count_sub(&m.sent, &p2) + crate::adv::count_sub(&m.sent, &p3))
+            .sum();
+        out.push(json!({"ev": "canary", "p": h, "hits": hits}).to_string());
     }
     out.push(
         json!({"ev": "end", "run": job.id, "steps": r.steps, "drift": r.drift, "maxout": net.max_outstanding,
